@@ -58,10 +58,12 @@ func (l *PythonBaseLexer) EmitToken(token antlr.Token) {
 		l.lastTokenIndex = l.IncTokenInd(l.lastTokenIndex)
 
 		if l.firstTokenIndex == l.lastTokenIndex {
+			// enlarge the ring: the tokens before firstTokenIndex stay where they are, those from
+			// firstTokenIndex to the end move to the end of the new array
 			var newArray = make([]antlr.Token, len(buffer)*2)
 			destIndex := len(newArray) - (len(buffer) - l.firstTokenIndex)
-			copy(newArray, buffer)
-			copy(newArray, buffer[:len(buffer)-l.firstTokenIndex])
+			copy(newArray, buffer[:l.firstTokenIndex])
+			copy(newArray[destIndex:], buffer[l.firstTokenIndex:])
 
 			l.firstTokenIndex = destIndex
 			buffer = newArray
